@@ -39,6 +39,10 @@ CONSTANTS MaxClock,    \* the abstract clock runs 1..MaxClock
                        \*  "stale": set_provision_finished(true) of update_provision_state only takes effect (and the
                        \*           status files are only written) if the flags are still ALL_READY inside the actor
                        \*  "zero" : a finished tick of 0 (not finished) never satisfies a query
+                       \*  "tmp"  : every writer of status.tag uses its own temp file
+                       \* (the repository now contains all three: the mc/ and gen/ProvisionGen.cfg configurations use
+                       \*  Fix = {"stale", "zero", "tmp"}; the gen/ProvisionGen_cex*.cfg keep Fix = {} and serve as
+                       \*  regression schedules: the interleavings that broke the statement before the repairs)
 
 VARIABLES flags, fin, clock, latch,      \* actor state, clock, key keeper secure channel latched?
           wpc, wloc, kkLeft, rdLeft, latchLeft,
@@ -64,14 +68,14 @@ view  == <<flags, fin, clock, latch, wpc, wloc, kkLeft, rdLeft, latchLeft, qs, t
            reported, everAllReady, timeupFired, allReadyAt, timeupAt, owed, written>>
 
 QIdle == [pc |-> "idle", q |-> 0, tick |-> 0, fl |-> {}, rep |-> {}, names |-> {}, lat |-> FALSE,
-          finished |-> FALSE, owed0 |-> 0]
+          finished |-> FALSE, owed0 |-> 0, ev |-> 0, tu |-> 0, inR0 |-> FALSE]
 LocIdle == [op |-> "-", farg |-> FALSE, msg |-> {}]
 
 Init == /\ flags = {} /\ fin = 0 /\ clock = 1 /\ latch = FALSE
         /\ wpc = [w \in Writers |-> "idle"] /\ wloc = [w \in Writers |-> LocIdle]
         /\ kkLeft = MaxKK /\ rdLeft = MaxRd /\ latchLeft = MaxLatch
         /\ qs = [i \in 1..NQ |-> QIdle]
-        /\ tmpF = NoFile /\ tagF = NoFile /\ fd = [w \in Writers |-> "none"]
+        /\ tmpF = [w \in Writers |-> NoFile] /\ tagF = NoFile /\ fd = [w \in Writers |-> "none"]
         /\ reported = {} /\ everAllReady = FALSE /\ timeupFired = FALSE
         /\ allReadyAt = 0 /\ timeupAt = 0 /\ owed = 0 /\ written = {}
         /\ last = [t |-> "-", i |-> 0, a |-> "init", x |-> "-"]
@@ -156,9 +160,11 @@ SetFin(w) ==
                   ELSE IF applies /\ wloc[w].farg /\ ~KKInReset THEN clock ELSE owed
        /\ wpc' = [wpc EXCEPT ![w] = IF wloc[w].op = "R" \/ ~applies THEN Rest(w) ELSE "wstate"]
        /\ wloc' = [wloc EXCEPT ![w] = IF wloc[w].op = "R" \/ ~applies THEN LocIdle ELSE wloc[w]]
+       \* a completed key latch reset supersedes the earlier "all three ready"
+       /\ allReadyAt' = IF wloc[w].op = "R" /\ flags # All THEN 0 ELSE allReadyAt
   /\ last' = [t |-> w, i |-> 0, a |-> "setfin", x |-> wloc[w].op]
   /\ UNCH_FILES /\ UNCH_ENV
-  /\ UNCHANGED <<flags, kkLeft, rdLeft, qs, reported, everAllReady, timeupFired, allReadyAt>>
+  /\ UNCHANGED <<flags, kkLeft, rdLeft, qs, reported, everAllReady, timeupFired>>
 
 -----------------------------------------------------------------------------
 \* the file system: one inode per name; descriptors follow their inode through renames
@@ -166,17 +172,20 @@ Over(old, msg) ==      \* write(2) of msg at offset 0 into a file holding old
   IF msg = {} THEN old                         \* zero bytes: no system call at all
   ELSE IF old.k = "file" /\ old.n \subseteq msg THEN Clean(msg)   \* old is empty, equal or shorter
   ELSE Garbage
-DoOpen(w, t0, g0, d0) ==  \* open(status.tag.tmp, O_CREAT|O_TRUNC): <<tmp, tag, fd>>
-  <<Clean({}), g0, [d0 EXCEPT ![w] = "tmp"]>>
+\* tmpF maps a temp-file slot to its file: one shared slot (status.tag.tmp), or one per writer with the "tmp" repair
+Slot(w) == IF "tmp" \in Fix THEN w ELSE "rd"
+DoOpen(w, t0, g0, d0) ==  \* open(temp, O_CREAT|O_TRUNC): <<tmp, tag, fd>>
+  <<[t0 EXCEPT ![Slot(w)] = Clean({})], g0, [d0 EXCEPT ![w] = "tmp"]>>
 DoWrite(w, m, t0, g0, d0) ==
-  CASE d0[w] = "tmp" -> <<Over(t0, m), g0, d0>>
+  CASE d0[w] = "tmp" -> <<[t0 EXCEPT ![Slot(w)] = Over(t0[Slot(w)], m)], g0, d0>>
     [] d0[w] = "tag" -> <<t0, Over(g0, m), d0>>
     [] OTHER         -> <<t0, g0, d0>>
 DoRename(w, t0, g0, d0) ==
-  IF t0.k = "absent" THEN <<t0, g0, [d0 EXCEPT ![w] = "none"]>>     \* ENOENT, logged
-  ELSE <<NoFile, t0, [x \in Writers |-> IF x = w THEN "none"
-                                         ELSE IF d0[x] = "tmp" THEN "tag"
-                                         ELSE IF d0[x] = "tag" THEN "orphan" ELSE d0[x]]>>
+  IF t0[Slot(w)].k = "absent" THEN <<t0, g0, [d0 EXCEPT ![w] = "none"]>>     \* ENOENT, logged
+  ELSE <<[t0 EXCEPT ![Slot(w)] = NoFile], t0[Slot(w)],
+         [x \in Writers |-> IF x = w THEN "none"
+                            ELSE IF d0[x] = "tmp" /\ Slot(x) = Slot(w) THEN "tag"
+                            ELSE IF d0[x] = "tag" THEN "orphan" ELSE d0[x]]>>
 
 \* write_provision_state: get_state() inside get_provision_failed_state_message; message = subsystems not ready.
 \* With FileSteps = FALSE the three system calls follow without an await (one step, as on one thread).
@@ -221,25 +230,28 @@ QTick(kind) == CASE kind = "zero"   -> {0}
                  [] kind = "past"   -> 1..clock
                  [] kind = "exact"  -> IF fin # 0 THEN {fin} ELSE {}
                  [] kind = "future" -> {Future}
+Max(a, b) == IF a >= b THEN a ELSE b
 Reported(tick, q, lat) == (tick >= q /\ (tick # 0 \/ ~("zero" \in Fix))) \/ lat
 QFin(i) ==      \* get_provision_finished
   /\ qs[i].pc = "idle" /\ wpc["ls"] = "serving"
   /\ \E kind \in QKinds : \E q \in QTick(kind) :
-       /\ qs' = [qs EXCEPT ![i] = [QIdle EXCEPT !.pc = "qstate", !.q = q, !.tick = fin, !.owed0 = owed]]
+       /\ qs' = [qs EXCEPT ![i] = [QIdle EXCEPT !.pc = "qstate", !.q = q, !.tick = fin, !.owed0 = owed,
+                                                  !.ev = allReadyAt, !.inR0 = KKInReset]]
        /\ last' = [t |-> "q", i |-> i, a |-> "qfin", x |-> kind]
   /\ UNCH_FILES /\ UNCH_ENV
   /\ UNCHANGED <<flags, fin, wpc, wloc, kkLeft, rdLeft, reported, everAllReady, timeupFired, allReadyAt,
                  timeupAt, owed>>
 QState(i) ==    \* get_state inside get_provision_failed_state_message
   /\ qs[i].pc = "qstate"
-  /\ qs' = [qs EXCEPT ![i].pc = "qchan", ![i].fl = flags, ![i].rep = reported, ![i].names = All \ flags]
+  /\ qs' = [qs EXCEPT ![i].pc = "qchan", ![i].fl = flags, ![i].rep = reported, ![i].names = All \ flags,
+                      ![i].ev = Max(qs[i].ev, allReadyAt)]
   /\ last' = [t |-> "q", i |-> i, a |-> "qstate", x |-> "-"]
   /\ UNCH_FILES /\ UNCH_ENV
   /\ UNCHANGED <<flags, fin, wpc, wloc, kkLeft, rdLeft, reported, everAllReady, timeupFired, allReadyAt,
                  timeupAt, owed>>
 QChan(i) ==     \* get_current_secure_channel_state; finished := tick >= q || latched
   /\ qs[i].pc = "qchan"
-  /\ qs' = [qs EXCEPT ![i].pc = "done", ![i].lat = latch,
+  /\ qs' = [qs EXCEPT ![i].pc = "done", ![i].lat = latch, ![i].ev = Max(qs[i].ev, allReadyAt), ![i].tu = timeupAt,
                       ![i].finished = Reported(qs[i].tick, qs[i].q, latch)]
   /\ last' = [t |-> "q", i |-> i, a |-> "qchan", x |-> "-"]
   /\ UNCH_FILES /\ UNCH_ENV
@@ -269,15 +281,18 @@ ErrorTextExact == \A i \in 1..NQ : qs[i].pc \in {"qchan", "done"} =>
 NoLostUpdate == flags = reported
 
 \* --- the statement of C16 (the oracle), on ghosts and responses only ------------------------------
-\* 'finished' only if the secure channel was latched, or at an instant at or after the one the query names all
-\* three subsystems were ready, or the deadline handler fired
-QueryTruthAt(q, finished, lat) ==
-  finished => \/ lat
-              \/ allReadyAt # 0 /\ allReadyAt >= q
-              \/ timeupAt # 0 /\ timeupAt >= q
-QueryTruth == \A i \in 1..NQ : qs[i].pc = "done" => QueryTruthAt(qs[i].q, qs[i].finished, qs[i].lat)
+\* 'finished' only if the secure channel was latched, or -- at an instant at or after the one the query names -- the
+\* deadline handler fired or all three subsystems were ready.  "All three ready" is what the subsystems last
+\* reported: a key latch reset that *completed* supersedes an earlier all-ready (allReadyAt is erased), a reset still
+\* in progress when the query reads the tick is concurrent with it (either order is an answer).  The evidence is what
+\* existed while the query ran (ev: all-ready instants seen at its three reads, tu: deadline at its end).
+QueryTruthAt(r) ==
+  r.finished => \/ r.lat \/ r.inR0
+                \/ r.ev # 0 /\ r.ev >= r.q
+                \/ r.tu # 0 /\ r.tu >= r.q
+QueryTruth == \A i \in 1..NQ : qs[i].pc = "done" => QueryTruthAt(qs[i])
 \* the same for queries that name a real instant (a missing time_tick header is read as instant 0)
-QueryTruthPos == \A i \in 1..NQ : qs[i].pc = "done" /\ qs[i].q # 0 => QueryTruthAt(qs[i].q, qs[i].finished, qs[i].lat)
+QueryTruthPos == \A i \in 1..NQ : qs[i].pc = "done" /\ qs[i].q # 0 => QueryTruthAt(qs[i])
 \* truthful in the other direction, conservatively: a provisioning that completed (all ready, or deadline) at or
 \* after the named instant, with no key latch reset begun since, is reported finished
 QueryCompleteAt(q, finished, o) == (o # 0 /\ o >= q) => finished
